@@ -4,6 +4,7 @@ import Driver.Cache
 import Driver.Bytes
 import Driver.Watch
 import Driver.Src
+import Driver.Cell
 /-!
 # amdrv — the model driver
 
@@ -18,6 +19,7 @@ structure Engines where
   bytes : Driver.Bytes.St := {}
   watch : Driver.Watch.St := {}
   src : Driver.Src.St := {}
+  cell : Driver.Cell.St := {}
 
 def dispatch (e : Engines) (ws : List String) : Engines × String :=
   match ws with
@@ -31,6 +33,7 @@ def dispatch (e : Engines) (ws : List String) : Engines × String :=
     else if w.startsWith "watch." then
       let (s, o) := Driver.Watch.step e.watch ws; ({ e with watch := s }, o)
     else if w.startsWith "s." then let (s, o) := Driver.Src.stepAll e.src ws; ({ e with src := s }, o)
+    else if w.startsWith "cell." then let (s, o) := Driver.Cell.step e.cell ws; ({ e with cell := s }, o)
     else
       let (s, o) := Driver.Cache.step e.cache ws; ({ e with cache := s }, o)
 
